@@ -10,8 +10,8 @@ BUILD = ("cd /verif/checker && GOFLAGS=-mod=vendor GOPROXY=off GOSUMDB=off GOTOO
 P = {
  "C01": (True,
    "value-term comparison: for every output of all 61 indicator Compute methods the calculus derives a term over the input series (delays, sub-indicator operators with their periods, arithmetic, inlined stateless closures, running folds) and compares its rational-function normal form with the formula transcribed from the doc comment; loop-free recurrences compared as guarded commands on every ordering of their inputs; anchors of all join operands vs. a frozen intrinsic-offset table",
-   "Static analysis of the structural part of C01, not a numeric evaluation: (1) the composition each indicator computes (which sub-indicators with which periods on which inputs, how many days delayed, which arithmetic and constants) is proved equal to the documented formula as an identity over uninterpreted operators, for all configurations and hence all series; (2) one step of each loop-free recurrence (EMA, RMA, SMMA, KAMA, moving sum, NVI, OBV) equals the documented update on every sign pattern of its comparisons, ties included; (3) at every element-wise join (about 110) the operands refer to the same input position or differ by the documented offset. Not decided: window contents kept in the search tree and rings (MovingMax/Min/Std, Wma loop, SuperTrend rule, helper.Since), warm-up lengths (C02), floating-point rounding.",
-   "Trusts go/types, the formula and recurrence tables transcribed from the doc comments, the intrinsic-offset table, Γ, the declared IdlePeriod contracts of sub-indicators (C02's obligation), Fourier–Motzkin and the polynomial normal forms. Genuine defects pinned by the unedited tests are listed as known findings: Apo, Dema, Emv, Fi (operands of different days), UlcerIndex (sqrt(Sma(PD)^2) instead of sqrt(Sma(PD^2))), Obv (compares the close with the previous OBV).",
+   "Static analysis of the structural part of C01, not a numeric evaluation: (1) the composition each indicator computes (which sub-indicators with which periods on which inputs, how many days delayed, which arithmetic and constants) is proved equal to the documented formula as an identity over uninterpreted operators, for all configurations and hence all series; (2) one step of each loop-free recurrence (EMA, RMA, SMMA, KAMA, moving sum, NVI, OBV) equals the documented update on every sign pattern of its comparisons, ties included; SuperTrend's band/trend selection step is compared with the documented rule on every truth assignment of its eight comparisons and two flags; the counted loops over the ring in Wma and MovingStd are read as sums and compared with the documented window formulas; (3) at every element-wise join (about 110) the operands refer to the same input position or differ by the documented offset; (4) padding of a shifted stream cannot influence the closure consuming it (polynomial use with zero fill, or behind a counter gate covering the padding). Not decided: the contents of the search tree behind MovingMax/MovingMin (C17 covers its comparator agreement), helper.Since, warm-up lengths (C02), floating-point rounding.",
+   "Trusts go/types, the formula and recurrence tables transcribed from the doc comments, the intrinsic-offset table, Γ, the declared IdlePeriod contracts of sub-indicators (C02's obligation), Fourier–Motzkin and the polynomial normal forms. Genuine defects pinned by the unedited tests are listed as known findings: Apo, Dema, Emv, Fi (operands of different days), UlcerIndex (sqrt(Sma(PD)^2) instead of sqrt(Sma(PD^2))), Obv (compares the close with the previous OBV). Repaired: MovingMax/MovingMin removed the Shift padding value 0 from the window (6142cb6).",
    "§4 C01"),
  "C03": (True,
    "Kahn-network structure analysis over the stage graph derived by the shape calculus: determinacy lint, channel linearity, close-on-all-exits, drain-on-exit, symbolic buffer >= anchor-skew at every fork/join",
@@ -25,7 +25,7 @@ P = {
    "§4 C04"),
  "C05": (True,
    "stream-shape calculus on every strategy Compute (length, anchor, Hold-fill prefix, fill-taint), registry coverage, action-constant lint",
-   "Static analysis. For all 40 strategy types: len(actions) = max(n, warm-up) (so exactly n beyond the warm-up and never fewer than n), anchor exactly 0, the final prefix is strategy.Hold and covers every element computed from another Shift's fill value, for ALL admissible configurations and n >= 0; compounds/decorators against the Strategy contract; every registry entry's type was analysed; Action values originate only from the three constants.",
+   "Static analysis. For all 40 strategy types: len(actions) = max(n, warm-up) (so exactly n beyond the warm-up and never fewer than n), anchor exactly 0, the final prefix is strategy.Hold and covers every element computed from another Shift's fill value, for ALL admissible configurations and n >= 0; compounds/decorators against the Strategy contract; every registry entry's type was analysed; Action values originate only from the three constants; the No-Loss/Stop-Loss decorators say Hold and stay not invested while the wrapped strategy says Hold and no position is open, for every closing price (rule actions/decorator-hold, on the closures' guarded commands).",
    "Trusts go/types, the Strategy interface contract for wrapped strategies, sub-indicator contracts, Γ, Fourier–Motzkin. Alligator and SMMA strategies emit n+1 actions one day late (pinned by their tests): known findings.",
    "§4 C05"),
  "C06": (True,
@@ -35,8 +35,8 @@ P = {
    "§4 C06"),
  "C07": (True,
    "decision-table extraction (symbolic execution of loop-free decision closures into guarded commands) evaluated exhaustively on the finite abstract domains their atoms induce and compared with the documented tables",
-   "Static analysis, exhaustive on finite domains: Inverse, Split and the MACD-RSI combiner point by point over {Sell,Hold,Buy}; And/Or/Majority on every tally with buy+hold+sell=k, k<=6 (realises every consistent weak ordering of the compared quantities); CountActions takes one action per source and increments exactly the matching counter; every source is denormalised; No-Loss and Stop-Loss as transducers over action x {not invested, invested} x ordering(level, close), outputs and level updates compared with the specification transducer, from which the safety statements follow for all histories. Semantic comparison: branch order and if/switch style do not matter. Wrapped strategies' behaviour and float rounding are not decided.",
-   "Trusts go/types and the specification tables (DESIGN appendix C); closing prices are positive so that level 0 encodes 'not invested'.",
+   "Static analysis, exhaustive on finite domains: Inverse, Split and the MACD-RSI combiner point by point over {Sell,Hold,Buy}; And/Or/Majority on every tally with buy+hold+sell=k, k<=6 (realises every consistent weak ordering of the compared quantities); CountActions takes one action per source and increments exactly the matching counter; every source is denormalised; No-Loss and Stop-Loss as transducers: the closure's guarded commands are compared with the documented step (as a conditional expression) for every wrapped action and every ordering of close, remembered level and 0 - symbolically, not on a price grid - outputs and level updates alike, from which the safety statements follow for all histories. Semantic comparison: branch order and if/switch style do not matter. Wrapped strategies' behaviour and float rounding are not decided.",
+   "Trusts go/types and the specification tables (DESIGN appendix C); level 0 encodes 'not invested' (as in the code); non-positive closings are included in the comparison.",
    "§4 C07"),
  "C08": (True,
    "decision-table extraction of NormalizeActions/DenormalizeActions/CountTransactions/Outcome, exhaustive product exploration of the extracted transducers, exact rational-function normal forms for the portfolio updates, sign analysis, shape calculus for lengths",
@@ -55,7 +55,7 @@ P = {
    "§4 C10"),
  "C11": (True,
    "typed-AST agreement lints between encoder and decoder siblings (reflect kinds, bit-size table, float/time arguments, constant-folded open flags, header-map indexing, JSON delimiters)",
-   "Static analysis of agreement rules without which some value cannot round-trip: same reflect kinds on both sides, a bit size for every sized kind used identically by formatter and parser, FormatFloat(…, -1, bits), one layout value for Format and Parse, WriteToFile truncates and AppendToFile appends (flag sets constant-folded), append only to an existing non-empty file, records indexed through the header map, JSON delimiters agree. Equality of written and re-read values for all inputs (strconv, encoding/csv, encoding/json, time) is not decided.",
+   "Static analysis of agreement rules without which some value cannot round-trip: same reflect kinds on both sides, a bit size for every sized kind used identically by formatter and parser, FormatFloat(…, -1, bits), one layout value for Format and Parse, WriteToFile truncates and AppendToFile appends (flag sets constant-folded), append only to an existing non-empty file, records indexed through the header map, header i and cell i of every written row come from the same column descriptor at the loop's own position, JSON delimiters agree. Equality of written and re-read values for all inputs (strconv, encoding/csv, encoding/json, time) is not decided.",
    "Trusts go/types constant folding and the documented semantics of the strconv/os functions named. Repaired: WriteToFile lacked O_TRUNC (ac57338); kindToBits lacked Uint8 (6348dc3).",
    "§4 C11"),
  "C12": (True,
@@ -65,8 +65,8 @@ P = {
    "§4 C12"),
  "C13": (True,
    "typed-AST protocol lints on Backtest.Run/worker + SSA shared-write analysis rooted at `go b.worker` + go/cfg lock-state lints on both report types + comparator totality lint",
-   "Static analysis of structural conditions: Begin before the workers, End after Wait; per asset AssetBegin, exactly one Write per strategy (unconditional, fed by ComputeWithOutcome of that strategy on a fresh SliceToChan), AssetEnd; nothing reachable from a worker writes shared memory without a mutex, and both bundled reports touch their maps only under the mutex on every path; sort comparators do not convert a float difference to int. Equality of the reported numbers with a direct evaluation is not decided.",
-   "Trusts go/types, go/ssa+CHA, go/cfg. Repaired: unsynchronised reports (bd51cda), int(float difference) comparators (9dddcd8).",
+   "Static analysis of structural conditions: Begin before the workers, End after Wait; per asset AssetBegin, exactly one Write per strategy (unconditional, fed by ComputeWithOutcome of that strategy on a fresh SliceToChan), AssetEnd; nothing reachable from a worker writes shared memory without a mutex, and both bundled reports touch their maps only under the mutex on every path; sort comparators do not convert a float difference to int; every slice index in package backtest is the key of a range over that slice, a constant below the constant count of helper.Duplicate, or protected by a length check ('no run crashes'). Equality of the reported numbers with a direct evaluation is not decided.",
+   "Trusts go/types, go/ssa+CHA, go/cfg. Repaired: unsynchronised reports (bd51cda), int(float difference) comparators (9dddcd8), HTMLReport.AssetEnd results[0] on an empty list (2e636f6).",
    "§4 C13"),
  "C14": (True,
    "stream-shape calculus on every strategy Report: each column stream vs. the date stream (length and anchor), symbolic in the periods",
@@ -80,7 +80,7 @@ P = {
    "§4 C02"),
  "C17": (True,
    "typed-AST lints with finite decision tables over the orderings {<,=,>}: no ordering by the sign of a difference in generic numeric code; Insert/search routing agreement; Ring index discipline",
-   "Static analysis of three structural necessary conditions, not of model conformance: ordering decisions on generic numeric values use comparison operators (a difference overflows for integer element types); evaluated on the three orderings, Insert and searchNode route smaller and larger keys to the same side and search stops on equality; every Ring buffer index is begin/end or reduced modulo len(buffer) and begin/end advance only through nextIndex = (i+1) % len(buffer). Conformance to the FIFO/multiset models under arbitrary operation histories is not decided.",
+   "Static analysis of four structural necessary conditions, not of model conformance: ordering decisions on generic numeric values use comparison operators (a difference overflows for integer element types); evaluated on the three orderings, Insert and searchNode route smaller and larger keys to the same side and search stops on equality; every Ring buffer index is begin/end or reduced modulo len(buffer) and begin/end advance only through nextIndex = (i+1) % len(buffer); the ring's state invariant `empty => begin == end` is established by NewRing and preserved on every path of every method (guarded commands of the methods, receiver fields as state). Conformance to the FIFO/multiset models under arbitrary operation histories is not decided.",
    "Trusts go/types; values are only compared, so three orderings are exhaustive for the routing rule. Repaired: searchNode ordered by subtraction (930a477).",
    "§4 C17"),
  "C18": (True,
